@@ -1,4 +1,3 @@
-import Sucds.Proofs.GenAll
 import Sucds.Proofs.GenRank9Sel
 import Sucds.Proofs.ConfigPrim
 /-! # C01 over the definitions *generated from the Rust sources* of `Rank9Sel`
